@@ -4,4 +4,4 @@ cd "$(dirname "$0")/.."
 OUT=$1; shift
 IDS="C01 C02 C03 C04 C05 C06 C07 C08 C09 C10 C11 C12 C13 C14 C15 C16 C17 C18"
 export IDS
-printf '%s\n' "$@" | xargs -P 8 -I{} bash -c 'r=$(tools/mutant.sh {} $IDS | awk "{printf \"%s:%s \", \$1, substr(\$2,6)}"); echo "$(basename $(dirname $(dirname {})))/$(basename $(dirname {})) $r"' | sort > "$OUT"
+printf '%s\n' "$@" | xargs -P ${PAR:-8} -I{} bash -c 'r=$(tools/mutant.sh {} $IDS | awk "{printf \"%s:%s \", \$1, substr(\$2,6)}"); echo "$(basename $(dirname $(dirname {})))/$(basename $(dirname {})) $r"' | sort > "$OUT"
